@@ -126,6 +126,10 @@ func main() {
 			for _, client := range []bool{false, true} {
 				c := wops.Cfg{Ctor: "NewWriter", Client: client, OpCode: ws.OpText}
 				enumerate(t, []wops.Cfg{c}, 2)
+				// NewWriter under a default buffer size the application changed
+				for _, n := range []int{16, 125, 126, 131} {
+					enumerate(t, []wops.Cfg{{Ctor: "NewWriter/DefaultWriteBuffer", N: n, Client: client, OpCode: ws.OpText}}, 2)
+				}
 			}
 			// WriteMessage and its variants: one final frame, correct opcode, masked iff client
 			sizes := []int{0, 1, 125, 126, 127, 4096, 65535, 65536}
@@ -169,6 +173,61 @@ func main() {
 						return nil
 					})
 				}
+			}
+			// the pooled writers, configured from one extension list that the application keeps and
+			// spreads into SetExtensions for every writer it takes: three take/write/put cycles, and a
+			// second writer alive at the same time
+			for _, client := range []bool{false, true} {
+				client := client
+				t.Do(func() string { return fmt.Sprintf("GetWriter/PutWriter cycles sharing one extension list, client=%v", client) }, func() *explore.Fail {
+					st := ws.StateServerSide
+					if client {
+						st = ws.StateClientSide
+					}
+					exts := []wsutil.SendExtension{wops.Rsv1First}
+					live := env.NewDst()
+					other := wsutil.GetWriter(live, st, ws.OpBinary, 128)
+					other.SetExtensions(exts...)
+					for cycle := 0; cycle < 3; cycle++ {
+						d := env.NewDst()
+						w := wsutil.GetWriter(d, st, ws.OpText, 128)
+						w.SetExtensions(exts...)
+						p := wops.Gen(cycle*10, 200)
+						if _, err := w.Write(p); err != nil {
+							return explore.Failf("pooled-writer-write", "cycle %d: %v", cycle, err)
+						}
+						if err := w.Flush(); err != nil {
+							return explore.Failf("pooled-writer-flush", "cycle %d: %v", cycle, err)
+						}
+						wsutil.PutWriter(w)
+						fr, rest := parse(d.Bytes())
+						var got []byte
+						for i, f := range fr {
+							wantRsv := byte(0)
+							if i == 0 {
+								wantRsv = 4
+							}
+							if f.H.Rsv != wantRsv || f.H.Masked != client {
+								return explore.Failf("pooled-writer-frame", "cycle %d frame %d: %v", cycle, i, f.H)
+							}
+							got = append(got, f.Payload...)
+						}
+						if len(rest) != 0 || string(got) != string(p) {
+							return explore.Failf("pooled-writer-payload", "cycle %d", cycle)
+						}
+						if exts[0] == nil {
+							return explore.Failf("application-extension-list-modified", "after PutWriter in cycle %d the application's list holds nil", cycle)
+						}
+					}
+					other.Write(wops.Gen(0, 50))
+					if err := other.Flush(); err != nil {
+						return explore.Failf("second-writer-flush", "%v", err)
+					}
+					if fr, rest := parse(live.Bytes()); len(fr) != 1 || len(rest) != 0 || fr[0].H.Rsv != 4 {
+						return explore.Failf("second-writer-frame", "%d frames", len(fr))
+					}
+					return nil
+				})
 			}
 			t.Outcome("well-formed")
 		})
